@@ -370,7 +370,9 @@ func runUC[V any](c ucCase, ue ucElem[V]) (res core.Result) {
 	// the sequence handed to the constructors is a List, an Array, or a Set ordered by a reversed collator
 	// (whose order and collator are its own business: the new collection is built from its values)
 	var seqArg col.Sequential[V] = col.List[V](n).MakeFromArray(vals)
-	switch (len(c.Codes) + c.Size) % 3 {
+	// the sequence the class-level constructor gets for comparison (the same data, another object)
+	var refArg col.Sequential[V] = col.List[V](n).MakeFromArray(vals)
+	switch (len(c.Codes) + c.Size) % 4 {
 	case 1:
 		seqArg = col.Array[V](n).MakeFromArray(vals)
 	case 2:
@@ -378,7 +380,32 @@ func runUC[V any](c ucCase, ue ucElem[V]) (res core.Result) {
 		for _, v := range vals {
 			rs.AddValue(v)
 		}
-		seqArg = rs
+		seqArg, refArg = rs, rs
+	case 3:
+		// a sequence an application wrote itself: its AsArray() hands out its own backing array
+		seqArg = &appSequence[V]{backing: append([]V{}, vals...)}
+		res.Classes = append(res.Classes, "application-sequence")
+	}
+	if (c.Form == "sequence" || c.Form == "collator+sequence") && len(vals) > 1 {
+		// an earlier caller made a collection from the very same sequence object and changed it in place
+		lib.Call(func() {
+			var earlier any
+			seqArgs := withNotation(c.Notation, seqArg)
+			switch c.Kind {
+			case "Array":
+				earlier = mod.Array[V](seqArgs...)
+			case "List":
+				earlier = mod.List[V](seqArgs...)
+			case "Stack":
+				earlier = mod.Stack[V](seqArgs...)
+			}
+			if u, ok := earlier.(col.Sortable[V]); ok {
+				u.ReverseValues()
+			}
+			if st, ok := earlier.(col.StackLike[V]); ok {
+				st.RemoveTop()
+			}
+		})
 	}
 	source := "[" + strings.Join(lits, ", ") + "](" + c.SrcCtx + ")"
 	if len(lits) == 0 {
@@ -493,7 +520,7 @@ func runUC[V any](c ucCase, ue ucElem[V]) (res core.Result) {
 				case "array":
 					want = A.MakeFromArray(vals)
 				case "sequence":
-					want = A.MakeFromSequence(seqArg)
+					want = A.MakeFromSequence(refArg)
 				}
 			case "List":
 				L := col.List[V](n)
@@ -503,7 +530,7 @@ func runUC[V any](c ucCase, ue ucElem[V]) (res core.Result) {
 				case "array":
 					want = L.MakeFromArray(vals)
 				case "sequence":
-					want = L.MakeFromSequence(seqArg)
+					want = L.MakeFromSequence(refArg)
 				}
 			case "Set":
 				S := col.Set[V](n)
@@ -513,7 +540,7 @@ func runUC[V any](c ucCase, ue ucElem[V]) (res core.Result) {
 				case "array":
 					want = S.MakeFromArray(vals)
 				case "sequence":
-					want = S.MakeFromSequence(seqArg)
+					want = S.MakeFromSequence(refArg)
 				case "collator":
 					want = S.MakeWithCollator(reversed)
 				case "collator+array":
@@ -524,7 +551,7 @@ func runUC[V any](c ucCase, ue ucElem[V]) (res core.Result) {
 					want = s
 				case "collator+sequence":
 					s := S.MakeWithCollator(reversed)
-					s.AddValues(seqArg)
+					s.AddValues(refArg)
 					want = s
 				}
 			case "Stack":
@@ -538,7 +565,7 @@ func runUC[V any](c ucCase, ue ucElem[V]) (res core.Result) {
 				case "array":
 					s = S.MakeFromArray(vals)
 				case "sequence":
-					s = S.MakeFromSequence(seqArg)
+					s = S.MakeFromSequence(refArg)
 				}
 				want, wantCap = s, s.GetCapacity()
 			case "Queue":
@@ -552,7 +579,7 @@ func runUC[V any](c ucCase, ue ucElem[V]) (res core.Result) {
 				case "array":
 					q = Q.MakeFromArray(vals)
 				case "sequence":
-					q = Q.MakeFromSequence(seqArg)
+					q = Q.MakeFromSequence(refArg)
 				}
 				want, wantCap = q, q.GetCapacity()
 			}
@@ -763,4 +790,14 @@ func mapForm[K comparable](c mapFormCase, pool []K, ident func(K) string) (res c
 	res.NonTrivial = len(want) > 0
 	res.Classes = append(res.Classes, "kind-"+c.Kind, "keys-"+c.Keys)
 	return
+}
+
+// appSequence is a Sequential[V] the library did not make
+type appSequence[V any] struct{ backing []V }
+
+func (s *appSequence[V]) AsArray() []V  { return s.backing }
+func (s *appSequence[V]) GetSize() int  { return len(s.backing) }
+func (s *appSequence[V]) IsEmpty() bool { return len(s.backing) == 0 }
+func (s *appSequence[V]) GetIterator() age.IteratorLike[V] {
+	return age.Iterator[V]().MakeFromArray(s.backing)
 }
